@@ -308,9 +308,9 @@ Section LayerV.
         match vr_get_by_request (ve_var e') r with
         | Ok (Hit _) => Ok ((c2, hs'), finishV r f headers ims_on true, lg, [r])
         | Ok (Miss position' headers') =>
-            let admitted := wants_cache cache_on (rq_method r) f
+            let accepted := wants_cache cache_on (rq_method r) f
                             && (negb (f_spref f =? SP_QUERY) || key_has_query k') in
-            if admitted && negb (kvarn_none f) then
+            if accepted && negb (kvarn_none f) then
               match vr_push dbg (ve_var e') f position' headers' with
               | Ok (vr', (f1, vary1)) =>
                   let remaining := option_map (fun l => l - (now - ve_created e')) (ve_life e') in
